@@ -1,8 +1,8 @@
 #!/verif/.venv/bin/python
 # Replay of a solver counterexample against the unmodified code (no shims).
-# property=C10 kernel=eom_drift label=c10:eom_phase_jump_gap
+# property=C10 kernel=real_prev label=c10:phase_jump_gap_real_pulses
 import sys
-sys.path[:0] = ["/repo/pulser-core", "/repo/pulser-simulation", "/verif"]
+sys.path[:0] = ['/repo' + "/pulser-core", '/repo' + "/pulser-simulation", "/verif"]
 from symx.replay import replay
-sys.exit(replay(check='checks.c10', kernel='eom_drift', shape={'cfg': {'lim': 'R', 'ctrl': ['B']}, 'program': [['enable', 2.0, 0.0, -1.0], ['eom_pulse', 0.5], ['delay'], ['eom_pulse', 0.5], ['eom_pulse', 0.5], ['delay'], ['delay'], ['eom_pulse', 0.5]], 'custom_buffer': None, 'kmax': 12},
-                assignment={'d1/k': 2, 'd2/k': 2, 'd3/k': 2, 'buf#1.start': 0, 'buf#1.end': 0, 'buf#2.start': 0, 'buf#2.end': 1, 'd4/k': 2, 'buf#3.start': 0, 'buf#3.end': 0, 'buf#4.start': 0, 'buf#4.end': 0, 'd5/k': 2, 'd6/k': 2, 'd7/k': 2, 'buf#5.start': 0, 'buf#5.end': 0, 'buf#6.start': 0, 'buf#6.end': 0}, label='c10:eom_phase_jump_gap'))
+sys.exit(replay(check='checks.c10', kernel='real_prev', shape={'prev': 'ramp00', 'det': 'const', 'proto1': 'min-delay', 'd1': 12},
+                assignment={'d0/k': 2, 'd2/k': 2, 'det1': '0/1', 'buf#1.start': 0, 'buf#1.end': 0, 'buf#2.start': 0, 'buf#2.end': 1, 'buf#5.start': 0, 'buf#5.end': 2, 'buf#6.start': 0, 'buf#6.end': 0}, label='c10:phase_jump_gap_real_pulses'))
